@@ -5,8 +5,39 @@ from .axioms import AXIOMS, AXIOM_DOC
 OPAQUE_DEFAULT = {"log_data"}
 
 
+_GENERIC_LOOPS = {}
+
+
+def generic_iterator_predicates(prog):
+    """local, effect-free functions whose own loop is driven by an *unresolvable* (generic parameter) iterator: their result is a
+    pure function of the arguments and unrolling them only forks on every element, so they are treated as uninterpreted
+    applications (the same policy the typestate fixpoint applies to pure looping functions)"""
+    if prog.path in _GENERIC_LOOPS:
+        return _GENERIC_LOOPS[prog.path]
+    out = set()
+    try:
+        from .effects import effects_of
+        from .mir import callee_of
+        eff = effects_of(prog)
+        for b in prog.nonderived_bodies():
+            if b.kind == "Closure" or not b.loop_heads():
+                continue
+            gen = False
+            for bb, t in b.calls():
+                ce = callee_of(t)
+                if ce and (ce.get("path") or "").endswith("Iterator::next") and not ce.get("resolved"):
+                    gen = True
+            if gen and eff.is_pure(b):
+                out.add(b.short)
+    except Exception:
+        out = set()
+    _GENERIC_LOOPS[prog.path] = out
+    return out
+
+
 def mk_interp(prog, opaque=(), event_hook=None, **kw):
     import os
+    opaque = set(opaque) | generic_iterator_predicates(prog)
     if os.environ.get("HOOT_DEEP") == "1":
         # thorough tier: loops are unrolled two iterations further before widening / atom recycling sets in, and
         # the abstract-state budget is four times larger
